@@ -11,6 +11,10 @@
 //   cval w n nm via v red => out ; clist w n nm via red size vals… => out|-1 ; cmpz w n nm via size vals… => out|-1
 //   umask w cm => mask                          mask of set(uniform) extracted bit by bit from the real code
 // via: 0 poly ctor, 1 poly::set on a dirty object, 2 poly::operator=, 3 poly_p ctor, 4 poly_p::operator=
+// A call that does not return (sanitizer report, assert of the library) leaves `INFLIGHT <op> w n nm via params… script…`
+// on stderr: the input of that call (tools/samplers_streams.py reports it as a failing input).
+// Parameter plan of the samplers (beside the tape): fixed weight h x degree (weight_classes / hwt_weights), bound B x limb
+// width (bound_list, bound_list_ext), amplifier A, rho (all 256 at degree 256; extremes at the largest degrees).
 #include "common.hpp"
 #include <nfl.hpp>
 #include <gmpxx.h>
@@ -19,7 +23,26 @@
 #include <algorithm>
 #include <stdexcept>
 
+#include <csignal>
+#include <unistd.h>
+#include <dlfcn.h>
+#if defined(__SANITIZE_ADDRESS__)
+extern "C" void __sanitizer_set_death_callback(void (*callback)(void));
+#define HAVE_SAN 1
+#else
+#define HAVE_SAN 0
+#endif
+
 using namespace vh;
+
+// ---- the call in flight: if the process dies inside a creator (sanitizer report, assert, signal) the left-hand side of
+// the line that would have been printed goes to stderr as `INFLIGHT <op> w n nm via params… script <#units> <units…>`
+// (the SCRIPT, not the served requests: the call did not return); tools/samplers_streams.py turns it into a failing input
+namespace inflight {
+static const char* op = nullptr;
+static char hdr[160];
+static void on_death();
+}
 
 namespace tp {
 static std::vector<uint8_t> script;
@@ -37,6 +60,53 @@ void fastrandombytes(unsigned char* r, unsigned long long rlen) {
   tp::served.push_back(std::move(got));
 }
 }  // namespace nfl
+
+namespace inflight {
+static void on_death() {
+  if (!op) return;  // not inside a creator (e.g. the leak report at exit)
+  fflush(stdout);
+  const bool w8 = tp::script.size() % 8 == 0;
+  fprintf(stderr, "\nINFLIGHT %s %s script-%s %zu", op, hdr, w8 ? "words64" : "bytes", w8 ? tp::script.size() / 8 : tp::script.size());
+  if (w8) for (size_t i = 0; i + 8 <= tp::script.size(); i += 8) {
+    uint64_t x = 0;
+    for (int b = 7; b >= 0; b--) x = (x << 8) | tp::script[i + b];
+    fprintf(stderr, " %llu", (unsigned long long)x);
+  } else for (uint8_t b : tp::script) fprintf(stderr, " %u", (unsigned)b);
+  fprintf(stderr, " served-requests %zu", tp::served.size());
+  for (auto& r : tp::served) fprintf(stderr, " %zu", r.size());
+  fprintf(stderr, "\n");
+  fflush(stderr);
+  op = nullptr;
+}
+static void on_signal(int) { on_death(); _exit(96); }
+static void install() {
+#if HAVE_SAN
+  __sanitizer_set_death_callback(on_death);
+  // g++ links libasan and libubsan as two shared objects, each with its own copy of the common runtime: the symbol above
+  // is libasan's; UBSan's halt goes through libubsan's copy
+  for (const char* lib : {"libubsan.so.1", "libubsan.so"})
+    if (void* hnd = dlopen(lib, RTLD_NOLOAD | RTLD_LAZY)) {
+      if (void* f = dlsym(hnd, "__sanitizer_set_death_callback")) ((void (*)(void (*)(void)))f)(on_death);
+      break;
+    }
+#endif
+  signal(SIGABRT, on_signal);  // assert() of the library; under a sanitizer SEGV/BUS/FPE are its reports (-> death callback)
+#if !HAVE_SAN
+  signal(SIGSEGV, on_signal); signal(SIGFPE, on_signal); signal(SIGBUS, on_signal);
+#endif
+}
+struct Scope {  // marks "inside a creator"
+  Scope(const char* o, int w, size_t n, size_t nm, int via, unsigned long long p0, unsigned long long p1, int np) {
+    if (np == 0) snprintf(hdr, sizeof hdr, "%d %zu %zu %d", w, n, nm, via);
+    else if (np == 1) snprintf(hdr, sizeof hdr, "%d %zu %zu %d %llu", w, n, nm, via, p0);
+    else snprintf(hdr, sizeof hdr, "%d %zu %zu %d %llu %llu", w, n, nm, via, p0, p1);
+    op = o;
+  }
+  ~Scope() { op = nullptr; }
+};
+}  // namespace inflight
+#define INFLIGHT(P, opname, via, p0, p1, np) \
+  inflight::Scope inflight_scope(opname, bits<typename P::value_type>(), (size_t)P::degree, (size_t)P::nmoduli, via, (unsigned long long)(p0), (unsigned long long)(p1), np)
 
 template <class T> static void push_word(std::vector<uint8_t>& s, T x) {
   for (size_t b = 0; b < sizeof(T); b++) s.push_back((uint8_t)((uint64_t)x >> (8 * b)));
@@ -114,7 +184,8 @@ template <class P> static void uni_line(std::vector<typename P::value_type> cons
   for (T x : words) push_word<T>(s, x);
   tp::load(s);
   int via = next_via();
-  auto q = create<P>(via, nfl::uniform());
+  std::unique_ptr<P> q;
+  { INFLIGHT(P, "uni", via, 0, 0, 0); q = create<P>(via, nfl::uniform()); }
   head<P>("uni", via); print_tape(); tail(q);
 }
 
@@ -171,7 +242,8 @@ template <class P> static void bnd_line(uint64_t B, uint64_t A, std::vector<type
   for (T x : words) push_word<T>(s, x);
   tp::load(s);
   int via = next_via();
-  auto q = create<P>(via, nfl::non_uniform(B, A));
+  std::unique_ptr<P> q;
+  { INFLIGHT(P, "bnd", via, B, A, 2); q = create<P>(via, nfl::non_uniform(B, A)); }
   head<P>("bnd", via);
   printf(" %llu %llu", (unsigned long long)B, (unsigned long long)A);
   print_tape(); tail(q);
@@ -215,6 +287,18 @@ static std::vector<uint64_t> bound_list(uint64_t pmin, int maxlog) {
   return r;
 }
 
+// BOUND x LIMB WIDTH: 2^j-1, 2^j, 2^j+1 for lo <= j <= hi (the powers of two bound_list leaves out in this tier), and -- the
+// parameter is a uint64_t whatever the limb -- bounds AT and BEYOND the limb width (2^w-1 .. 2^w+4: a bound truncated to
+// the limb would look like 0..4; same around 2^32 for the 16-bit limb), 2^63(+1,+3), 2^64-2, 2^64-1: the code must throw
+static std::vector<uint64_t> bound_list_ext(uint64_t pmin, int lo, int hi, int wbits) {
+  std::vector<uint64_t> r;
+  for (int j = lo; j <= hi; j++) for (int d = -1; d <= 1; d++) { uint64_t b = (1ULL << j) + d; if (b <= pmin + 1) r.push_back(b); }
+  if (wbits < 64) for (uint64_t d : {0ull, 1ull, 2ull, 3ull, 5ull}) r.push_back((1ULL << wbits) - 1 + d);
+  if (wbits < 32) for (uint64_t d : {0ull, 1ull, 2ull, 3ull}) r.push_back((1ULL << 32) - 1 + d);
+  for (uint64_t b : {1ULL << 63, (1ULL << 63) + 1, (1ULL << 63) + 3, ~0ULL - 1, ~0ULL}) r.push_back(b);
+  return r;
+}
+
 template <class P> static void bnd_family(Rng& g, int maxlog, int lines) {
   uint64_t pmin = P::get_modulus(0);
   for (size_t cm = 1; cm < P::nmoduli; cm++) pmin = std::min<uint64_t>(pmin, P::get_modulus(cm));
@@ -228,11 +312,23 @@ template <class P> static void bnd_family(Rng& g, int maxlog, int lines) {
     }
 }
 
+template <class P> static void bnd_family_ext(Rng& g, int lo, int hi) {
+  uint64_t pmin = P::get_modulus(0);
+  for (size_t cm = 1; cm < P::nmoduli; cm++) pmin = std::min<uint64_t>(pmin, P::get_modulus(cm));
+  for (uint64_t B : bound_list_ext(pmin, lo, hi, bits<typename P::value_type>()))
+    for (uint64_t A : {1ull, 2ull, 3ull, 1024ull}) {
+      bool adm = B < pmin && (B == 1 || A <= (pmin - 1) / (B - 1));
+      if (!adm && !(A == 1 || A == 1024)) continue;   // excluded points / throwing bounds: two amplifiers are enough
+      bnd_boundary<P>(g, B, A, 1);
+    }
+}
+
 // --------------------------------------------------------------------------------------------- ZO
 template <class P> static void zo_line(unsigned rho, std::vector<uint8_t> const& bytes) {
   tp::load(bytes);
   int via = next_via();
-  auto q = create<P>(via, nfl::ZO_dist((uint8_t)rho));
+  std::unique_ptr<P> q;
+  { INFLIGHT(P, "zo", via, rho, 0, 1); q = create<P>(via, nfl::ZO_dist((uint8_t)rho)); }
   head<P>("zo", via);
   printf(" %u", rho);
   print_tape(); tail(q);
@@ -249,7 +345,8 @@ template <class P> static void hwt_emit(Rng& g, unsigned h, std::vector<uint64_t
   for (uint64_t x : words) push_word<uint64_t>(s, x);
   tp::load(s);
   int via = next_via();
-  auto q = create<P>(via, nfl::hwt_dist(h));
+  std::unique_ptr<P> q;
+  { INFLIGHT(P, "hwt", via, h, 0, 1); q = create<P>(via, nfl::hwt_dist(h)); }
   const bool wf = P::degree > 64 && served_in_words();
   head<P>(wf ? "hwtw" : "hwt", via);
   printf(" %u", h);
@@ -369,6 +466,29 @@ template <class T, size_t N, size_t NM> static void hwt_all_h(Rng& g, size_t exh
   }
 }
 
+// WEIGHT x DEGREE.  The weight is a run-time parameter (uint32_t) that the code turns into container sizes, a request
+// length in bytes (8h) and comparison bounds, next to a compile-time degree that selects index types elsewhere in the
+// library (details::uint_value_t<degree>): the classes are the EXTREME weights (1, 2, 3, n/2-1..n/2+1, n-2, n-1, n) and
+// the weights at which a narrower counter / byte count would wrap (2^j-1, 2^j, 2^j+1 for 2^j = 128, 256, 8192 (8h = 2^16),
+// 32768, 65536), at every degree class.  Excluded: h = 0 and h > n (assert -> abort; with NDEBUG the code reads past an
+// empty buffer for ever / writes positions >= n: no terminating run to compare).
+static std::vector<unsigned> weight_classes(size_t n, int level) {
+  std::vector<uint64_t> v = {n, n - 1};
+  if (level >= 1) for (uint64_t x : {(uint64_t)1, (uint64_t)2, (uint64_t)3, n / 2 - 1, n / 2, n / 2 + 1, n - 2}) v.push_back(x);
+  if (level >= 1) for (int j : {7, 8, 13, 15, 16}) for (int d = -1; d <= 1; d++) v.push_back((1ULL << j) + d);
+  std::vector<unsigned> r;
+  for (uint64_t x : v) if (x >= 1 && x <= n && x < (1ULL << 32) && std::find(r.begin(), r.end(), (unsigned)x) == r.end()) r.push_back((unsigned)x);
+  return r;
+}
+
+// one random tape (rejection-zone words sprinkled in, boundary quotients) per weight class; level 2: a probe tape too
+template <class P> static void hwt_weights(Rng& g, int level) {
+  for (unsigned h : weight_classes(P::degree, level)) {
+    hwt_random<P>(g, h, 1);
+    if (level >= 2 && h < P::degree) hwt_probe_line<P>(g, h, h);
+  }
+}
+
 // ---------------------------------------------------------------------------------------- gaussian
 template <class P> static void gau_lines(Rng& g, double sigma, std::vector<uint64_t> const& amps, int lines) {
   using T = typename P::value_type;
@@ -386,7 +506,8 @@ template <class P> static void gau_lines(Rng& g, double sigma, std::vector<uint6
       fg.getNoise(buf.data(), n);  // what set(gaussian) will see: same tape, same object
       tp::rewind();
       int via = next_via();
-      auto q = create<P>(via, nfl::gaussian<uint8_t, T, 2>(&fg, amp));
+      std::unique_ptr<P> q;
+      { INFLIGHT(P, "gau", via, amp, 0, 1); q = create<P>(via, nfl::gaussian<uint8_t, T, 2>(&fg, amp)); }
       head<P>("gau", via);
       printf(" %llu", (unsigned long long)amp);
       for (size_t i = 0; i < n; i++) printf(" %lld", (long long)(S)buf[i]);
@@ -477,6 +598,7 @@ template <class P> static void zo_family(Rng& g, std::vector<unsigned> const& rh
 }
 
 int main() {
+  inflight::install();
   const uint64_t seed = env_u64("VERIF_SEED", 1);
   const bool th = thorough();
   Rng g(seed * 7919 + 12);
@@ -589,6 +711,30 @@ int main() {
       hwt_probe_line<P17>(gl, 131072, 1);   // no reservoir step: 2^17 sign words in one request
       hwt_random<P17>(gl, 65536, 1);
     }
+    // WEIGHT x DEGREE (own generator): extreme weights at every degree class of every limb.  Quick: h in {n, n-1}
+    // everywhere, all weight classes at 128/256/512 (where an 8-bit index type would switch); thorough: all classes
+    // everywhere, with probe tapes
+    {
+      Rng gw(seed * 7919 + 14);
+      const int lo = th ? 2 : 0, sm = th ? 2 : 1;
+      hwt_weights<nfl::poly<uint16_t, 128, 2>>(gw, sm);
+      hwt_weights<nfl::poly<uint16_t, 256, 2>>(gw, sm);
+      hwt_weights<nfl::poly<uint16_t, 512, 2>>(gw, sm);
+      hwt_weights<nfl::poly<uint32_t, 256, 3>>(gw, sm);
+      hwt_weights<nfl::poly<uint64_t, 128, 2>>(gw, sm);
+      hwt_weights<nfl::poly<uint64_t, 256, 1>>(gw, sm);
+      hwt_weights<nfl::poly<uint64_t, 512, 3>>(gw, sm);
+      hwt_weights<nfl::poly<uint64_t, 64, 2>>(gw, sm);
+      hwt_weights<nfl::poly<uint64_t, 1024, 1>>(gw, lo);
+      hwt_weights<nfl::poly<uint32_t, 2048, 1>>(gw, lo);
+      hwt_weights<nfl::poly<uint64_t, 4096, 2>>(gw, lo);
+      hwt_weights<nfl::poly<uint32_t, 8192, 1>>(gw, lo);
+      hwt_weights<nfl::poly<uint64_t, 16384, 2>>(gw, lo);
+      hwt_weights<nfl::poly<uint32_t, 32768, 1>>(gw, lo);
+      hwt_weights<nfl::poly<uint64_t, 65536, 1>>(gw, lo);
+      hwt_weights<nfl::poly<uint64_t, 131072, 1>>(gw, lo);
+      if (th) hwt_weights<nfl::poly<uint64_t, 1048576, 1>>(gw, 0);
+    }
     // uniform: every row of the 32- and 64-bit tables as a modulus (boundary words of THAT row), and the largest degrees
     uni_boundary<nfl::poly<uint32_t, 4, nfl::params<uint32_t>::kMaxNbModuli>>(gl, 4);
     uni_boundary<nfl::poly<uint64_t, 4, nfl::params<uint64_t>::kMaxNbModuli>>(gl, 4);
@@ -600,6 +746,14 @@ int main() {
     bnd_boundary<nfl::poly<uint64_t, 16384, 2>>(gl, (1ULL << 60) + 1, 3, 1);
     bnd_boundary<nfl::poly<uint32_t, 32768, 1>>(gl, (1ULL << 29) - 1, 1, 1);
     bnd_boundary<nfl::poly<uint16_t, 512, 2>>(gl, 4097, 3, 1);
+    // BOUND x LIMB WIDTH (own generator): in the quick tier the powers of two above 2^20 that bnd_family leaves to the
+    // thorough tier; in both tiers the bounds at / beyond the limb width
+    {
+      Rng gb(seed * 7919 + 15);
+      bnd_family_ext<nfl::poly<uint16_t, 16, 2>>(gb, 1, 0);
+      bnd_family_ext<nfl::poly<uint32_t, 16, 3>>(gb, th ? 1 : 21, th ? 0 : 29);
+      bnd_family_ext<nfl::poly<uint64_t, 16, 3>>(gb, th ? 1 : 21, th ? 0 : 61);
+    }
     // ternary at the largest degree of every limb
     {
       std::vector<unsigned> rhos = {0x7F, (unsigned)gl.below(256)};
@@ -607,6 +761,11 @@ int main() {
       zo_family<nfl::poly<uint32_t, 32768, 1>>(gl, rhos, 1);
       zo_family<nfl::poly<uint64_t, 131072, 1>>(gl, {0x7F}, 1);
       if (th) zo_family<nfl::poly<uint64_t, 1048576, 1>>(gl, rhos, 1);
+      // the extreme parameters (rho = 0: only byte 0 is non-zero; rho = 255: every byte is) at the largest degrees too
+      std::vector<unsigned> ext = {0, 255};
+      zo_family<nfl::poly<uint16_t, 512, 2>>(gl, ext, 1);
+      zo_family<nfl::poly<uint32_t, 32768, 1>>(gl, ext, 1);
+      if (th) { ext.push_back(1); ext.push_back(254); zo_family<nfl::poly<uint64_t, 131072, 1>>(gl, ext, 1); zo_family<nfl::poly<uint64_t, 1048576, 1>>(gl, {0, 255}, 1); }
     }
   }
 
